@@ -210,6 +210,18 @@ mut("C11-ply-counter-not-restored-in-quiescence", "C11", "ply-counter",
 mut("C11-ply-counter-raised-after-seldepth-only-under-pvs", "C11", "ply-counter",
     (S, "            let mut score;\n            self.info.depth += 1;\n            self.info.seldepth = self.info.seldepth.max(self.info.depth);\n            if pvs {", "            let mut score;\n            self.info.seldepth = self.info.seldepth.max(self.info.depth);\n            if pvs {\n                self.info.depth += 1;"))
 
+# ... on the fourth wave (modernised spellings)
+mut("R-C11-search-child-researches-on-either-bound", "C11", "windows",
+    (S, "            let pvs_failed = alpha < score && score < beta;", "            let pvs_failed = alpha < score || score < beta;"), base=R + "R9-refactor2.diff")
+mut("R-C11-search-child-returns-null-window-score-always", "C11", "windows",
+    (S, "            if !pvs_failed {\n                return score;\n            }", "            return score;"), base=R + "R9-refactor2.diff")
+mut("R-C04-from-scratch-via-mutators-wrong-kind", "C04", "same-words",
+    ("src/board/zkey.rs", "        key.add_castling_right_if_available(board, CastlingKind::BlackQueenside);", "        key.add_castling_right_if_available(board, CastlingKind::BlackKingside);"), base=R + "R11-refactor2.diff")
+mut("R-C05-filter-map-piece-loop-stops-at-63", "C05", "components",
+    ("src/board/zkey.rs", "            (0..64u8).filter_map(|square| Some((square, board.get_piece(Square::from(square))?)));", "            (0..63u8).filter_map(|square| Some((square, board.get_piece(Square::from(square))?)));"), base=R + "R11-refactor3.diff")
+mut("R-C15-line-iterator-flattens-errors", "C15", "io-exits",
+    ("src/uci.rs", "        for line in input.lines().map_while(Result::ok) {", "        for line in input.lines().flatten() {"), base=R + "R10-refactor6.diff")
+
 
 if __name__ == "__main__":
     missing = []
